@@ -19,6 +19,8 @@ def close(a, b, tol=LR_TOL):
 def run(sc, res, restarts):
     """restarts: dict epoch -> 'load' | 'noload' (restart after that epoch)."""
     model = ts.ControlModel(sc["params"], DEFAULT_LR)
+    snapshots = {0: copy.deepcopy(model)}
+    redo = {int(k): v for k, v in (sc.get("redo") or {}).items()}
     job = ts.Job(sc, res)
     fs = job.fs
     n = job.n
@@ -43,6 +45,21 @@ def run(sc, res, restarts):
                 tm, vm = sc["metrics"][e - 1]
                 vals.append(vm)
                 m_cont, m_lr, reduced = model.step(vm)
+                snapshots[e] = copy.deepcopy(model)
+                if e in redo and not model.borderline:
+                    # run epoch e again from epoch e-1's checkpoint, with other metrics
+                    tm, vm = redo.pop(e)
+                    sc["metrics"][e - 1] = [tm, vm]
+                    vals[-1] = vm
+                    job.ctrl.load_model_and_optimizer_for_epoch(job.model, job.opt, e - 1)
+                    ts.stamp(sc, job.model, job.opt, e)
+                    cont = job.ctrl.update_for_epoch(job.model, job.opt, tm, vm, epoch=e, best_is_train=sc["best_is_train"], **job.entries_for(e))
+                    job.decisions[e] = (bool(cont), job.opt.param_groups[0]["lr"])
+                    model = copy.deepcopy(snapshots[e - 1])
+                    m_cont, m_lr, reduced = model.step(vm)
+                    snapshots[e] = copy.deepcopy(model)
+                    res.bump("fault.epoch_redone")
+                    res.log.add("redo", e)
                 if model.borderline:
                     res.bump("skipped_borderline_epsilon")
                     res.borderline = True
@@ -138,6 +155,8 @@ _TWIN = {}
 def execute(sc):
     res = RunResult()
     res.borderline = False
+    sc = copy.deepcopy(sc)
+    orig_metrics = copy.deepcopy(sc["metrics"])
     restarts = {int(k): v for k, v in (sc.get("restarts") or {}).items()}
     key = short_hash({k: v for k, v in sc.items() if k != "restarts"})
     job = run(sc, res, restarts)
@@ -158,7 +177,9 @@ def execute(sc):
     if tw is None:
         r2 = RunResult()
         r2.borderline = False
-        j2 = run(sc, r2, {})
+        sc2 = copy.deepcopy(sc)
+        sc2["metrics"] = copy.deepcopy(orig_metrics)
+        j2 = run(sc2, r2, {})
         if r2.violations or r2.borderline:
             res.violations = r2.violations
             return res
@@ -194,6 +215,12 @@ def generate(rng, tier, index):
             re[str(e)] = "load" if (sc["state_dir"] is not None and rng.random() < 0.75) else "noload"
     sc["restarts"] = re
     sc["_plan_seed"] = rng.randrange(1 << 30)
+    # REDO(k): epoch k is run again after reloading epoch k-1's checkpoint (update_for_epoch(..., epoch=k)),
+    # which appends a second row for k to the append-only history; the later row is the valid one
+    if (sc["state_dir"] is not None and not sc["params"]["keep_last_and_best_only"] and "{epoch" in sc["params"]["saved_model_fmt"]
+            and "{epoch" in sc["params"]["saved_optimizer_fmt"] and n >= 2 and rng.random() < 0.3):
+        k = rng.randrange(2, n + 1)
+        sc["redo"] = {str(k): [rng.choice(ts.GRID), rng.choice(ts.GRID)]}
     return sc
 
 
